@@ -209,30 +209,22 @@ func analyseCoilPacking(c *Ctx, fn *ssa.Function) packInfo {
 	if len(pi.j.terms) == 1 && pi.j.c == 0 && pi.j.terms[0].k == 1 {
 		pi.jKey = pi.j.terms[0].s.key
 	}
-	// loop coverage: j is a header phi 0, j+1 and the body is entered iff j < len(coils)
-	if ph, ok := jv.(*ssa.Phi); ok && len(ph.Edges) == 2 {
-		hdr := ph.Block()
-		initOK, stepOK := false, false
-		for i, e := range ph.Edges {
-			if isBackEdge(hdr.Preds[i], hdr) {
-				if ev, ok := fr.intVal(e); ok && ev.a.equal(pi.j.addc(1)) {
-					stepOK = true
+	// loop coverage: coils[j] is tested for every j in 0..len(coils)-1
+	for b := blk; b != nil; b = b.Idom() {
+		id := b.Idom()
+		if id == nil {
+			break
+		}
+		if iff, ok := id.Instrs[len(id.Instrs)-1].(*ssa.If); ok && id.Succs[0] == b {
+			if l, ok := loadOfElem(iff.Cond); ok && l.Index == jv {
+				okc, why := coversAll(fr, l, coils)
+				pi.loopOK = okc
+				if !okc {
+					pi.why = why
 				}
-			} else if isConstInt(e, 0) {
-				initOK = true
+				break
 			}
 		}
-		exitOK := false
-		if iff, ok := hdr.Instrs[len(hdr.Instrs)-1].(*ssa.If); ok {
-			body := fr.edge[[2]int{hdr.Index, hdr.Succs[0].Index}]
-			exit := fr.edge[[2]int{hdr.Index, hdr.Succs[1].Index}]
-			_ = iff
-			if body.entails(atomLT(pi.j, coils.ln)) && exit.entails(atomGE(pi.j, coils.ln)) {
-				exitOK = true
-			}
-		}
-		// no other way out of the loop than the header test: the function has one return
-		pi.loopOK = initOK && stepOK && exitOK
 	}
 	pi.ok = true
 	return pi
